@@ -31,7 +31,9 @@ Walk(steps, k, st, bad) ==
                    [] x.op = "recompute" ->
                       Walk(steps, k + 1, st,
                            bad \cup (IF RecomputeOK(st.restored, x.s, o) THEN {} ELSE {"recomputed_weight_equal"})
-                               \cup (IF st.restored[x.s] # None /\ o.b = st.restored[x.s].b THEN {} ELSE {"recomputed_breakdown_equal"}))
+                               \* several longest paths may exist: recomputing may settle on another one of the same weight (the statement asks for the
+                               \* weight only); when it settles on the same path, the breakdown must be the same table again
+                               \cup (IF st.restored[x.s] # None /\ (o.p = st.restored[x.s].p => o.b = st.restored[x.s].b) THEN {} ELSE {"recomputed_breakdown_equal"}))
                    [] x.op = "save_restored" ->
                       Walk(steps, k + 1, [st EXCEPT !.disk[x.t] = st.restored[x.s]],
                            bad \cup (IF o = st.restored[x.s] THEN {} ELSE {"restored_unchanged_by_save"}))
